@@ -71,6 +71,12 @@ Theorem C09_config_payload : forall t v fw,
     Ok (hexlify (le16 t ++ le16 v ++ le16 (fw_blocks fw) ++ le16 (fw_crc fw))).
 Proof. exact fw_config_payload_ok. Qed.
 
+(* boundary: with more than 65535 blocks (image >= 1 MiB - 127 bytes) the config
+   response cannot be packed: struct.error (outside the property's 1..32768 range) *)
+Theorem C09_config_payload_overflow : forall t v fw,
+  (65535 < fw_blocks fw)%Z -> fw_config_payload t v fw = Raise StructError.
+Proof. exact fw_config_payload_overflow. Qed.
+
 Theorem C09_config_echo : forall t v fw p,
   fw_config_payload t v fw = Ok p ->
   fw_hex_to_int p 4 = Ok [t; v; fw_blocks fw; fw_crc fw].
@@ -232,6 +238,7 @@ Print Assumptions C09_reassemble_any_order.
 Print Assumptions C09_response_payload.
 Print Assumptions C09_response_echo.
 Print Assumptions C09_config_payload.
+Print Assumptions C09_config_payload_overflow.
 Print Assumptions C09_config_echo.
 Print Assumptions C09_unhexlify_hexlify.
 Print Assumptions C09_hexlify_unhexlify.
